@@ -277,7 +277,7 @@ def judge(run, emitted_after_def=None):
                 ok = DM.number_matches(val, e["value"], e["spec"].get("format", "%f"))
             elif tv["kind"] == "blob":
                 strict = (dn == "DEV0" and vn == "TGT" and run.blob_strict.get(n) and not run.snoop
-                          and run.w.delivery == "whole" and run.w.chooser is None and not run.w.cuts)
+                          and run.w.delivery == "whole" and run.w.chooser is None and not run.w.cuts and not getattr(run.w, "backpressure", False))
                 ok = DM.blob_equiv(val, e["value"]) or (val is None and not strict)
             else:
                 # an empty text and "no text" are the same value on the wire (an element without content); an in-process
@@ -373,6 +373,7 @@ def run_history(p, path, snoop, delivery="whole", cuts=None, chooser=None, judge
             if delivery == "backpressure" and not paused_eps and k >= len(path) - 2:
                 # the clients read slowly: from here on the server's writes wait in drain() (flow control paused) while
                 # the last two operations publish; afterwards the clients catch up and must converge all the same
+                run.w.backpressure = True  # (the two connections then drain in an order of their own: I-13 / I-18)
                 for l in run.w.links:
                     l.server_ep.pause()
                     l.client_ep.pause()
